@@ -46,6 +46,7 @@ def _on_alarm(signum, frame):
 
 STEP_WATCHDOG_S = 20.0
 RUN_WALL_CAP_S = 15.0
+DEEP_TREE_LEVELS = 100
 SHRINK_WATCHDOG_S = 5.0
 
 
@@ -170,6 +171,18 @@ def simulate(prop, cfg, ops=None, known=(), digest=False, want_trace=False, stat
                 break
             signal.setitimer(signal.ITIMER_REAL, 0)
             exp = kobj.spec(pre, R, op, out)
+            if not out.ok and isinstance(out.exc, (RecursionError, MemoryError)):
+                # The library is recursive throughout; a tree a few hundred levels deep exhausts the
+                # interpreter's stack in any of its operations.  No property speaks about that limit:
+                # on deep trees the step is adopted unjudged.  On shallow trees a RecursionError is an
+                # ordinary outcome (a cycle, a runaway recursion) and is judged like any exception.
+                hs = [x for x in R.values() if isinstance(x, int)]
+                roots = set(pre.root_of(x) for x in hs) if hs else set(h for h in pre.alive() if h not in pre.listers)
+                if any(pre.height(r) >= DEEP_TREE_LEVELS for r in roots):
+                    exp.judged = False
+                    exp.notes["resource_exhausted"] = True
+                    res.probes["recursion_limit_on_deep_tree_unjudged"] = \
+                        res.probes.get("recursion_limit_on_deep_tree_unjudged", 0) + 1
             if "p" in R and "c" in R and kobj.mutating:
                 W.last_touch = (op["s"], R["p"], R["c"])
             post = W.snapshot(op["s"])
@@ -183,7 +196,11 @@ def simulate(prop, cfg, ops=None, known=(), digest=False, want_trace=False, stat
                 W, op, kobj, R, pre, post, out, exp, nh, state
             c.step = len(res.ops) - 1
             res.steps += 1
-            v = profile.judge(c)
+            if exp.notes.get("resource_exhausted"):
+                profile.skipped(c)
+                v = None
+            else:
+                v = profile.judge(c)
             if exp.judged:
                 if op["k"] in own:
                     res.judged[op["k"]] = res.judged.get(op["k"], 0) + 1
